@@ -16,8 +16,13 @@ import time
 VERIF = os.path.dirname(os.path.dirname(os.path.abspath(__file__)))
 REPO = os.environ.get("VERIF_REPO", "/repo")
 BUILD = os.path.join(VERIF, "build")
-EVIDENCE = os.path.join(VERIF, "evidence")
-REPLAYS = os.path.join(VERIF, "replays")
+# Development aid: VERIF_REPO=<scratch worktree> runs the same checks against a
+# scratch copy (seeded-change experiments) with separate build cache, evidence and
+# replay directories, so registered runs against /repo are never disturbed.
+SCRATCH = os.path.realpath(REPO) != "/repo"
+REPO_TAG = ("-" + hashlib.sha256(os.path.realpath(REPO).encode()).hexdigest()[:8]) if SCRATCH else ""
+EVIDENCE = os.path.join(BUILD, "scratch-evidence" + REPO_TAG) if SCRATCH else os.path.join(VERIF, "evidence")
+REPLAYS = os.path.join(BUILD, "scratch-replays" + REPO_TAG) if SCRATCH else os.path.join(VERIF, "replays")
 GUARD = "IAUTHD_C_VERIF"
 NCPU = min(16, os.cpu_count() or 4)
 
@@ -92,6 +97,7 @@ def cached_build(kind, files, extra, builder):
 
     builder(outdir) must create everything; a .ok file marks completion."""
     os.makedirs(BUILD, exist_ok=True)
+    kind = kind + REPO_TAG
     h = _hash(files, extra)
     out = os.path.join(BUILD, "%s-%s" % (kind, h))
     if os.path.exists(os.path.join(out, ".ok")):
